@@ -136,6 +136,47 @@ class AppBench:
             except Exception as e:
                 seen.append(("raise", _name(e, Error)))
 
+        async def consume_polling():
+            # an application that polls: each wait for the next notification is bounded (`asyncio.wait_for`), and a
+            # wait that timed out -- which cancels the `__anext__` call -- is simply followed by the next one
+            it = req.observation.__aiter__()
+            waiter = None
+            try:
+                while True:
+                    # (what asyncio.wait_for does, with the time-out counted in loop iterations)
+                    waiter = asyncio.ensure_future(it.__anext__())
+                    for _ in range(2):
+                        if waiter.done():
+                            break
+                        await asyncio.sleep(0)
+                    if not waiter.done():
+                        waiter.cancel()
+                        await asyncio.gather(waiter, return_exceptions=True)
+                        if not waiter.cancelled():
+                            pass                      # it completed after all: take what it has
+                        else:
+                            await asyncio.sleep(0)
+                            continue
+                    try:
+                        m = waiter.result()
+                    except StopAsyncIteration:
+                        seen.append(("stop",))
+                        return
+                    except asyncio.CancelledError:
+                        seen.append(("raise", "CancelledError"))       # the wait was not cancelled by anybody
+                        return
+                    seen.append(("item", int(m.payload or b"0")))
+                    for _ in range(work):
+                        await asyncio.sleep(0)
+            except asyncio.CancelledError:
+                if not getattr(consume_polling, "by_harness", False):
+                    seen.append(("raise", "CancelledError"))      # nobody cancelled this task: a spurious one
+                if waiter is not None and not waiter.done():
+                    waiter.cancel()                               # (as asyncio.wait_for does with its inner task)
+                raise
+            except Exception as e:
+                seen.append(("raise", _name(e)))
+
         async def turn(n):
             for _ in range(n):
                 await asyncio.sleep(0)
@@ -162,12 +203,13 @@ class AppBench:
                     raise                   # (this task is being cancelled, not the response future)
             for _ in range(open_delay):
                 await asyncio.sleep(0)
-            await consume()
+            await (consume_polling() if sc["consumer"] == "poll" else consume())
 
         try:
-            if sc.get("rc") is not None and sc["consumer"] == "iter":
+            if sc.get("rc") is not None and sc["consumer"] in ("iter", "poll"):
                 # the application iterates from the start (and waits for the response elsewhere)
-                consumer = loop.create_task(opener() if sc["rc"] else consume())
+                consumer = loop.create_task(opener() if sc["rc"] else
+                                            (consume_polling() if sc["consumer"] == "poll" else consume()))
                 await turn(2)
             for idx, a in enumerate(sc["arrivals"] + [None]):
                 if sc.get("rc") == idx:
@@ -192,7 +234,7 @@ class AppBench:
                         tman.dispatch_error(self.make_exc(a[2]), remote)
                 except Exception as e:
                     escaped.append((idx, type(e).__name__))
-                if consumer is None and sc["consumer"] == "iter":
+                if consumer is None and sc["consumer"] in ("iter", "poll"):
                     consumer = loop.create_task(opener())
             await turn((3 + work) * (len(sc["arrivals"]) + 4) + 12)
             if req.response.done() and not req.response.cancelled():
@@ -203,6 +245,7 @@ class AppBench:
             if consumer is not None:
                 pending = not consumer.done()
                 if pending:
+                    consume_polling.by_harness = True
                     consumer.cancel()
                 await asyncio.gather(consumer, return_exceptions=True)
             snapshot = list(seen)         # what follows is the harness cleaning up
